@@ -1,6 +1,7 @@
 package rules
 
 import (
+	"fmt"
 	"go/token"
 	"strings"
 
@@ -19,6 +20,7 @@ func init() {
 	register(&core.Rule{ID: "R-TB-RATE-BOUNDS", Props: []string{"C13"}, Doc: "every store to refillRate is one of: the configured rate (constructor), max(refillRate·f, floor) with f∈(0,1] and floor = min(minRefillRate, idealRate), the convex recovery step under refillRate<idealRate, or idealRate itself — hence min(0.5,ideal) ≤ refillRate ≤ idealRate inductively", Run: ruleTBRate})
 	register(&core.Rule{ID: "R-TB-TOKENS", Props: []string{"C13"}, Doc: "every store to tokens is 0, min(capacity, …), tokens-1 under tokens>=1, or the constructor's capacity", Run: ruleTBTokens})
 	register(&core.Rule{ID: "R-TB-PENALTY", Props: []string{"C13"}, Doc: "refill: token increase only when !now.Before(penaltyUntil), elapsed measured from the later of lastRefill/penaltyUntil; adjustOnFailure: the {429,403,408,425} arm always increments failureCount, sets penaltyUntil = now.Add(Duration(min(5s·2^(failureCount-1), 30s))) with the cap applied in the float domain, zeroes tokens; the ≥500 arm never stores penaltyUntil; onSuccess stores neither tokens nor penaltyUntil", Run: ruleTBPenalty})
+	register(&core.Rule{ID: "R-BM-SINGLE-BUCKET", Props: []string{"C13", "C16"}, Doc: "BucketManager.buckets: every insertion happens in the critical section of a lookup of the map (no unlock between the miss and the insert), so concurrent first contacts with a host share one bucket", Run: ruleBMSingleBucket})
 	register(&core.Rule{ID: "R-BM-FEEDBACK", Props: []string{"C13"}, Doc: "BucketManager.Wait/AdjustOnFailure/OnSuccess reach the bucket's method on every path (a missing bucket is created, never skipped)", Run: ruleBMFeedback})
 	register(&core.Rule{ID: "R-TB-USE", Props: []string{"C13"}, Doc: "fetch closure: globalBucketManager.Wait(req.URL.Host) happens once, before the retry loop; every response is reported with AdjustOnFailure(host, resp.StatusCode) on the retry branch or OnSuccess(host) otherwise", Run: ruleTBUse})
 }
@@ -466,6 +468,46 @@ func ruleTBPenalty(r *core.Reporter) {
 			r.Violated("refill/elapsed-from", p.InstrPos(sub), "elapsed time is not measured from max(lastRefill, penaltyUntil): after a penalty the bucket is credited for the penalty period itself (burst right after back-off)")
 		}
 	}
+	// refill/clock-advance: time is credited exactly once — outside a penalty period, a refill with elapsed > 0
+	// always moves lastRefill to the `now` it measured with (otherwise the same interval is credited again)
+	{
+		var nowCall ssa.Value
+		if sub != nil {
+			nowCall = ir.Strip(ir.Recv(sub.Common()))
+		}
+		isAdvance := func(in ssa.Instruction) bool {
+			st, ok := in.(*ssa.Store)
+			if !ok {
+				return false
+			}
+			tn, f, okf := ir.FieldOf(st.Addr)
+			return okf && tn == tBucket && f == "lastRefill" && nowCall != nil && ir.Strip(st.Val) == nowCall
+		}
+		skip := map[*ssa.BasicBlock]int{}
+		for _, ii := range ir.Ifs(rf) {
+			if c := ir.BoolCallAtom(ii.Atom, "(time.Time).Before"); c != nil && isLoadOf(c.Call.Args[1], "penaltyUntil") {
+				skip[ii.If.Block()] = ii.EdgeWhen(true) // in penalty: nothing credited
+			}
+			a := ii.Atom
+			if a.V == nil && a.Op == token.LSS {
+				// 0 < elapsed  (elapsed > 0): the false side credits nothing
+				if z, okz := ir.ConstFloat(a.X); okz && z == 0 && sub != nil && dependsOn(a.Y, sub, map[ssa.Value]bool{}) {
+					skip[ii.If.Block()] = ii.EdgeWhen(false)
+				}
+			}
+		}
+		ret, bad := ir.PathExists([]ir.Pt{ir.Entry(rf)}, ir.Opts{Stop: isAdvance, EdgeOK: func(b *ssa.BasicBlock, s int) bool {
+			e, has := skip[b]
+			return !has || e != s
+		}}, ir.IsExit)
+		if nowCall == nil {
+			r.Undecided("refill/clock-advance", fnPos(p, rf), "cannot identify the time the refill measures with")
+		} else if bad {
+			r.Violated("refill/clock-advance", p.InstrPos(ret), "refill can return, outside a penalty and with time elapsed, without moving lastRefill to now: the same interval is credited again by the next refill (burst above capacity after an idle period)")
+		} else {
+			r.Held("refill/clock-advance", 1, "every crediting path stores lastRefill = now")
+		}
+	}
 	// --- adjustOnFailure: penalty arm
 	wantCodes := map[int64]bool{429: false, 403: false, 408: false, 425: false}
 	type edge struct {
@@ -893,4 +935,56 @@ func ruleTBUse(r *core.Reporter) {
 	} else {
 		r.Violated(name+"/report", p.InstrPos(do), "limiter feedback is not AdjustOnFailure(req host, this response's StatusCode) / OnSuccess(req host) (adjust ok=%v, success ok=%v)", okAdj, okSucc)
 	}
+}
+
+func ruleBMSingleBucket(r *core.Reporter) {
+	p := r.P
+	n := 0
+	for _, fn := range p.FuncsInPkg(rel(pkgRL)) {
+		var lookups, updates []ssa.Instruction
+		allInstrs(fn, func(in ssa.Instruction) {
+			fa, ok := in.(*ssa.FieldAddr)
+			if !ok {
+				return
+			}
+			if tn, f, _ := ir.FieldOf(fa); tn != pkgRL+".BucketManager" || f != "buckets" {
+				return
+			}
+			for _, ld := range ir.Referrers(fa) {
+				u, isLoad := ld.(*ssa.UnOp)
+				if !isLoad {
+					continue
+				}
+				for _, use := range ir.Referrers(u) {
+					switch use.(type) {
+					case *ssa.MapUpdate:
+						updates = append(updates, use)
+					case *ssa.Lookup:
+						lookups = append(lookups, use)
+					}
+				}
+			}
+		})
+		isUnlock := func(in ssa.Instruction) bool {
+			c, ok := in.(*ssa.Call)
+			return ok && strings.HasSuffix(ir.CallName(c.Common()), "Mutex).Unlock")
+		}
+		for k, up := range updates {
+			n++
+			r.Analysed(fn)
+			key := fmt.Sprintf("%s/insert#%d", core.FuncName(fn), k+1)
+			ok := false
+			for _, lk := range lookups {
+				if ir.Reach([]ir.Pt{ir.After(lk)}, ir.Opts{Stop: isUnlock}).Reached[up] {
+					ok = true
+				}
+			}
+			if ok {
+				r.HeldAt(key, p.InstrPos(up), 1, "inserted in the critical section of the lookup that missed")
+			} else {
+				r.Violated(key, p.InstrPos(up), "a bucket is inserted without a lookup in the same critical section: two goroutines that both miss a new host each get their own full bucket (N×capacity requests at once; feedback reaches only the bucket that stays in the map)")
+			}
+		}
+	}
+	r.Floor("insertions into BucketManager.buckets", n, 1)
 }
